@@ -188,6 +188,22 @@ pub fn run_c16(env: &Env) -> Report {
         let mut on = o; on.ansi = true; let mut off = o; off.ansi = false;
         let mut ph: Vec<Sess> = [on, off].iter().enumerate().filter_map(|(i, o)| Sess::new(&mut t, &env.data, &format!("p{}", i), PHONETIC, *o, &xdg)).collect();
         let mut fx: Vec<Sess> = [on, off].iter().enumerate().filter_map(|(i, o)| Sess::new(&mut t, &env.data, &format!("f{}", i), &lay.probhat, *o, &xdg)).collect();
+        // corpus: texts WITHOUT a single Bengali letter — a lone full stop / double stop (danda), quotes around nothing or around a
+        // back-slash (curled by smart quotes), digits, punctuation runs: their pre-edit text is the encoding like any other
+        for txt in [".", "..", "...", ".`", "\"\\\"", "'\\'", "\"", "(.)", "12.", "1.5", "?!", ":", "$", ".\"", "\".\""] {
+            if !txt.chars().all(crate::code_ok) { continue; }
+            for s in ph.iter_mut() {
+                let mut pre = String::new();
+                for c in txt.chars() { pre.push(c); let ob = s.key(&mut t, code_for_char(c).unwrap(), 0, 0); let ctx = json!({"stream": "c16", "layout": PHONETIC, "opts": s.opts.bits_str(), "text": pre}); let so = s.opts; check_ansi(env, &mut rep, &so, &pre, &ob, &ctx); rep.eval(Some(&format!("pc|{}|{}", s.opts.bits_str(), pre))); }
+                s.finish(&mut t);
+            }
+            // the same keys through Probhat (its `.` and `|` keys give the danda and the double danda on an empty composition)
+            for s in fx.iter_mut() {
+                let mut typed = String::new();
+                for c in txt.chars().chain("|".chars()) { let code = code_for_char(c).unwrap(); let ob = s.key(&mut t, code, 0, 0); typed.push(c); let ctx = json!({"stream": "c16", "layout": s.layout, "opts": s.opts.bits_str(), "events": s.events}); let so = s.opts; check_ansi(env, &mut rep, &so, &typed, &ob, &ctx); rep.eval(Some(&format!("fc|{}|{}", s.opts.bits_str(), typed))); }
+                s.finish(&mut t); s.events.clear();
+            }
+        }
         for _ in 0..(if env.quick() { 40 } else { 600 }) {
             // phonetic texts: words, emoticons, emoji names, suffixed words
             let txt = match rng.below(6) { 0 => rng.pick(&pools.emoticons).clone(), 1 => rng.pick(&pools.emoji_names).clone(), 2 => format!("{}{}", pools.word(&mut rng), rng.pick(&pools.suffixes)), 3 => format!("\"{}\"", pools.word(&mut rng)), _ => pools.word(&mut rng) };
@@ -290,8 +306,12 @@ pub fn run_c17(env: &Env) -> Report {
                                 rep.violation("C17", cls, format!("text {:?}: on {:?} vs off {:?}", txt, ca, cb), ctx.clone());
                             } else if sa != sb {
                                 // known shape only: the learned value of the word IS the raw word part (the user once chose the English candidate)
+                                // (the word part is taken both ways: after a colon key the difference is the one of the key before —
+                                //  ':' is a selection-keeping key, the engine returns the index each caller passed)
                                 let (_, wpart, _) = split(&txt, false);
-                                let learned_raw = ui % 3 == 0 && super::c05::store_sample().get(&wpart) == Some(&wpart);
+                                let (_, wpart_c, _) = split(&txt, true);
+                                let st = super::c05::store_sample();
+                                let learned_raw = ui % 3 == 0 && (st.get(&wpart) == Some(&wpart) || st.get(&wpart_c) == Some(&wpart_c));
                                 let cls = if learned_raw { "selection-differs-with-learned-raw-text" } else { "selection-differs" };
                                 rep.violation("C17", cls, format!("text {:?}: preselection {} (on) vs {} (off) in {:?}", txt, sa, sb, cb), ctx.clone());
                             }
